@@ -90,11 +90,12 @@ def creates_reg(ins):
 
 
 class Gen:
-    def __init__(self, rng, N, scalar_only=False, buffers=True, linalg=True):
+    def __init__(self, rng, N, scalar_only=False, buffers=True, linalg=True, rational=False):
         self.rng, self.N = rng, N
         self.instrs = []
         self.kind = []          # per register: 's' scalar | ('v', n) | ('m', n, m) | 'bufv' | 'bufm'
         self.scalar_only, self.buffers, self.linalg = scalar_only, buffers, linalg
+        self.rational = rational
         self.buf_filled = {}
 
     def emit(self, ins, kind=None):
@@ -136,12 +137,12 @@ class Gen:
             num = ['r', a] if self.rng.random() < 0.7 else self.const()
             return self.emit(['bin', 'div', num, ['r', den]], 's')
         if r < 0.8:
-            f = self.rng.choice(UN_ANY if not self.scalar_only else ['exp', 'sin', 'cos', 'square', 'negative'])
+            f = self.rng.choice(['square', 'negative'] if self.rational else (UN_ANY if not self.scalar_only else ['exp', 'sin', 'cos', 'square', 'negative']))
             if f in ('exp', 'expm1'):
                 a = self.emit(['un', 'sin', a], 's')       # keep magnitudes bounded
             return self.emit(['un', f, a], 's')
         if r < 0.9:
-            f = self.rng.choice(UN_POS if not self.scalar_only else ['log', 'sqrt', 'reciprocal'])
+            f = self.rng.choice(['reciprocal'] if self.rational else (UN_POS if not self.scalar_only else ['log', 'sqrt', 'reciprocal']))
             sq = self.emit(['un', 'square', a], 's')
             pos = self.emit(['bin', 'add', ['r', sq], ['c', self.rng.choice([0.5, 1.0, 2.0])]], 's')
             return self.emit(['un', f, pos], 's')
@@ -149,7 +150,7 @@ class Gen:
         if isinstance(p, float) or p < 0:
             sq = self.emit(['un', 'square', a], 's')
             a = self.emit(['bin', 'add', ['r', sq], ['c', 1.0]], 's')
-        else:
+        elif not self.rational:
             a = self.emit(['un', 'sin', a], 's')
         return self.emit(['pow', a, p], 's')
 
@@ -165,7 +166,7 @@ class Gen:
             other = ['r', self.pick_scalar()] if self.rng.random() < 0.7 else self.const()
             v = self.emit(['bin', self.rng.choice(['mul', 'add', 'mul']), ['r', g1], other], 's')
             if self.rng.random() < 0.3:
-                v = self.emit(['un', self.rng.choice(['sin', 'cos', 'square']), v], 's')
+                v = self.emit(['un', self.rng.choice(['square'] if self.rational else ['sin', 'cos', 'square']), v], 's')
             self.emit(['set', buf, k2, ['r', v]])
         outs = [self.emit(['get', buf, k], 's') for k in range(n)]
         if not self.scalar_only and self.rng.random() < 0.5:
@@ -250,11 +251,11 @@ class Gen:
         return dict(N=self.N, instrs=self.instrs, ret=ret)
 
 
-def gen_prog(rng, ap, N=None, length=None, nout=1, scalar_only=False, buffers=True, linalg=True, tries=50):
+def gen_prog(rng, ap, N=None, length=None, nout=1, scalar_only=False, buffers=True, linalg=True, tries=50, rational=False):
     """generate a program whose values stay moderate at a few test points"""
     for _ in range(tries):
         n = N or rng.randint(1, 4)
-        g = Gen(rng, n, scalar_only=scalar_only, buffers=buffers, linalg=linalg)
+        g = Gen(rng, n, scalar_only=scalar_only or rational, buffers=buffers, linalg=linalg, rational=rational)
         prog = g.build(length or rng.randint(4, 22), nout=nout)
         ok = True
         for _t in range(3):
